@@ -285,6 +285,12 @@ func rawOf(o *ObjSpec, flavor int) (runtime.RawExtension, *metav1.GroupVersionKi
 	return runtime.RawExtension{Raw: b}, &metav1.GroupVersionKind{Group: gvks[0].Group, Version: gvks[0].Version, Kind: gvks[0].Kind}
 }
 
+// the userInfo fields the library must not look at carry names that most generated configurations exempt
+var (
+	WireUserUID    = "exempt-user"
+	WireUserGroups = []string{"system:authenticated", "system:admin", "exempt-user", "a-user"}
+)
+
 // WireRequest builds the AdmissionRequest an API server would send for req.
 func WireRequest(cfg *CfgSpec, req *ReqSpec) *admissionv1.AdmissionRequest {
 	flavor := len(req.Name) + len(req.Namespace) + len(req.User)
@@ -297,11 +303,8 @@ func WireRequest(cfg *CfgSpec, req *ReqSpec) *admissionv1.AdmissionRequest {
 		kind = &metav1.GroupVersionKind{Version: "v1", Kind: "Pod"}
 	}
 	res := metav1.GroupVersionResource{Group: req.Group, Version: "v1", Resource: req.Resource}
-	// a user name that is empty must stay empty: the UID and groups name exempt users where there are any
-	uid, groups := "uid-1", []string{"system:authenticated"}
-	if len(cfg.ExUsers) > 0 {
-		uid, groups = cfg.ExUsers[0], append(groups, cfg.ExUsers...)
-	}
+	// a user name that is empty must stay empty: the UID and groups name users that configurations exempt
+	uid, groups := WireUserUID, WireUserGroups
 	return &admissionv1.AdmissionRequest{
 		UID: "wire-uid", Kind: *kind, Resource: res, SubResource: req.Subresource,
 		RequestKind: kind, RequestResource: &res, RequestSubResource: req.Subresource,
@@ -523,6 +526,21 @@ func ReqTerm(in *cq.Interner, r *ReqSpec) string {
 	dl := "None"
 	if r.DeadlineIn != nil {
 		dl = cq.App("Some", cq.Z(baseNow+int64(*r.DeadlineIn)))
+	}
+	if r.Wire {
+		// the request as sent: the model's adapter (Model/Wire.v: attributes_of) turns it into what the library reads
+		raw := func(o *ObjSpec) string {
+			switch o.Kind {
+			case "decodeerr":
+				return cq.App("RawUndecodable", in.S("injected decode failure"))
+			case "nil":
+				return "RawAbsent"
+			}
+			return cq.App("RawObject", objTerm(in, o))
+		}
+		return cq.App("attributes_of", cq.App("AdmissionRequest", in.S("wire-uid"), in.S(r.Group), in.S(r.Resource), in.S(r.Subresource),
+			in.S(r.Group), in.S(r.Resource), in.S(r.Subresource), in.S(r.Name), in.S(r.Namespace), in.S(r.Op),
+			in.S(r.User), in.S(WireUserUID), in.StrList(WireUserGroups), raw(&r.Object), raw(&r.Old)), dl)
 	}
 	return cq.App("Request", in.S(r.Group), in.S(r.Resource), in.S(r.Subresource), in.S(r.Namespace), in.S(r.Name), in.S(r.User),
 		opTerm(in, r.Op), objTerm(in, &r.Object), objTerm(in, &r.Old), dl)
